@@ -163,9 +163,18 @@ def adversarial(rng):
             if q < 0.25:
                 h.request(o, pipelined=rng.choice([1, 2]), poll_between=False)
             elif q < 0.4:
+                k = rng.choice([0, 1, 2, 3, 100, 126, 127, 128, 129, 500])
                 h.ops.append([1, o, rng.choice([b'garbage\r\n\r\n', b'GET\r\n', b'PUT /x HTTP/1.1\r\nContent-Length: 99999999\r\n\r\n',
                                                 b'GET /partial HTT', b'\r\n', b'PUT /c%d/big HTTP/1.1\r\nContent-Length: 10\r\n\r\nabc' % o,
-                                                b'GET / HTTP/1.1\r\nX: \xff\r\n\r\n'])])
+                                                b'GET / HTTP/1.1\r\nX: \xff\r\n\r\n',
+                                                # every kind of malformed request the connection-level generator knows
+                                                reqgen.gen_bad_request(rng, 51200)[0], reqgen.gen_bad_request(rng, 51200)[0],
+                                                # an over-long header line with multi-byte characters at varying offsets (echoed in the 400)
+                                                b'GET / HTTP/1.1\r\nX-L: ' + b'a' * k + '\u00e9'.encode() * 600,
+                                                b'GET /' + b'u' * k + '\u00e9'.encode() * 600,
+                                                # a declared length beyond 32 bits with a body that looks like a request
+                                                b'PUT /c%d/big HTTP/1.1\r\nContent-Length: 4294967296\r\n\r\nGET /c99/smuggled HTTP/1.1\r\n\r\n' % o,
+                                                b'PUT /c%d/big HTTP/1.1\r\nContent-Length:\r\n\r\n' % o])])
             elif q < 0.5:
                 h.ops.append([4, o])          # shutdown(RD): never reads its responses again
             elif q < 0.6:
@@ -182,6 +191,11 @@ def adversarial(rng):
     # the witness must still be served
     h.request(w, poll_between=False)
     h.finish(clients=[w])
+    # what the other clients received is observed too (C07 judges every client's stream)
+    noread = set(op[1] for op in h.ops if op[0] == 4)      # clients that shut down their read side never read again
+    for o in others:
+        if o in h.alive and o not in noread:
+            h.ops.append([5, o])
     h.witness = w
     return h
 
@@ -427,6 +441,8 @@ def check_client_bytes(prop, t, a, v, clients=None):
         for (sl, hs, body) in rs:
             if body.startswith(b'echo:'):
                 uri = body[5:]
+                if not re.match(rb'/c\d+/', uri):
+                    continue      # an untagged request the client sent itself (malformed-looking but accepted by the grammar)
                 if not uri.startswith(b'/c%d/' % c):
                     v.append(prop.viol(t, 'client %d only receives answers to its own requests' % c, 'answer to ' + repr(uri), 'misrouted'))
                     break
